@@ -143,6 +143,49 @@ def check_crystal(a, n, meta):
     return out
 
 
+def corr_letters_original(ctx, n_cases):
+    """get_wyckoff_letters_original driven directly: spglib's letters and the chosen normalizer's permutation are injected, the result
+    is compared with the Lean model (letters carried through the permutation, `permletters`); every tabulated permutation that is
+    not an involution is included (for those, applying the inverse instead is visible)"""
+    import sym_common as S
+    from ase import Atoms
+    from matid.symmetry.symmetryanalyzer import SymmetryAnalyzer
+    rng = np.random.default_rng(ctx.seed + 12012)
+    N = S.norm_tables()
+    perms = []
+    for n in sorted(N):
+        for q in N[n]:
+            p = q["permutations"]
+            if any(p.get(p[a]) != a for a in p):
+                perms.append((n, p))
+    while len(perms) < n_cases:
+        n = int(rng.integers(1, 231))
+        if N.get(n):
+            perms.append((n, N[n][int(rng.integers(0, len(N[n])))]["permutations"]))
+    lines, real = [], []
+    dummy = Atoms("Cu", positions=[[0, 0, 0]], cell=[3, 3, 3], pbc=True)
+    for n, perm in perms[:max(n_cases, len(perms))]:
+        keys = sorted(perm)
+        letters = [keys[int(i)] for i in rng.integers(0, len(keys), int(rng.integers(1, 12)))]
+        sa = SymmetryAnalyzer(dummy, symmetry_tol=1e-3)
+        sa._best_transform = {"permutations": perm}
+        sa._get_spglib_wyckoff_letters_original = lambda letters=letters: np.array(letters)
+        try:
+            got = ",".join(str(ord(c)) for c in sa.get_wyckoff_letters_original())
+        except KeyError:
+            got = "KeyError"
+        lines.append("permletters %s %s" % (S.perm_str(perm), ",".join(str(ord(c)) for c in letters)))
+        real.append(got)
+        ctx.count("letters_original_noninvolutive" if any(perm.get(perm[a]) != a for a in perm) else "letters_original_involutive")
+    out = driver(lines)
+    mism = []
+    for l, o, r in zip(lines, out, real):
+        ctx.case(("permletters", l))
+        if o != r:
+            mism.append({"what": "get_wyckoff_letters_original", "op": l, "model": o, "real": r})
+    return mism
+
+
 def monitor(ctx, groups):
     import crystals
     rng = np.random.default_rng(ctx.seed + 1212)
@@ -193,6 +236,7 @@ def run(ctx):
     mism = []
     try:
         mism = correspondence(ctx, ctx.n(800, 20000))
+        mism += corr_letters_original(ctx, ctx.n(150, 2000))
     except common.DriverError as e:
         broken.append(("driver", {"error": str(e)[-1000:]}))
     if mism:
@@ -206,6 +250,23 @@ def run(ctx):
         ctx.finding("crystal:%d:%s" % (b["group"], b["complaints"][0][:40]), "group %d: %s" % (b["group"], b["complaints"][0]), {"kind": "failing-input", "case": b})
     import analyzer_hist
     analyzer_hist.check(ctx, "C12", broken)
+    if broken and not ctx.findings:
+        import sym_common as S
+        import crystals
+        N = S.norm_tables()
+        noninv = [n for n in sorted(N) if any(any(q["permutations"].get(q["permutations"][a]) != a for a in q["permutations"]) for q in N[n])]
+        drng = np.random.default_rng(ctx.seed + 121212)
+        nd = 0
+        for n, a1, a2, meta in S.directed_crystals(ctx, (S.broken_groups(broken) + noninv)[:14], drng, per_letter=1):
+            try:
+                res = check_crystal(a2, n, {})
+            except Exception as e:  # noqa
+                res = ["exception %r" % e]
+            ctx.count("directed_crystals")
+            if res and nd < 3:
+                nd += 1
+                ctx.finding("crystal:%d:%s" % (n, res[0][:40]), "group %d (directed, letter %s): %s" % (n, meta["letter"], res[0]),
+                            {"kind": "failing-input", "case": {"group": n, "complaints": res, "atoms": crystals.atoms_to_json(a2), "presentation": meta}})
     if broken and not ctx.findings:
         ctx.finding("unproved", "proof/correspondence broken, no failing crystal found", {"kind": "broken-obligation", "broken": broken}, found_input=False)
     ctx.coverage["broken"] = [{"what": k, "info": i} for k, i in broken]
